@@ -41,6 +41,8 @@ pub fn meta() -> PropMeta {
 pub enum OpA {
     Begin,
     End(u8),
+    /// (client) begin a session, let the begin frame go out, never answer it and drop the future
+    BeginAbandoned,
 }
 
 #[derive(Clone, Debug, Serialize, Deserialize, Hash)]
@@ -66,7 +68,7 @@ fn cm() -> BoxedStrategy<u16> {
 }
 
 pub fn case_a_strategy() -> BoxedStrategy<CaseA> {
-    (0u8..2, cm(), cm(), vec(prop_oneof![3 => Just(OpA::Begin), 1 => any::<u8>().prop_map(OpA::End)], 1..24), any::<u64>())
+    (0u8..2, cm(), cm(), vec(prop_oneof![6 => Just(OpA::Begin), 2 => any::<u8>().prop_map(OpA::End), 1 => Just(OpA::BeginAbandoned)], 1..24), any::<u64>())
         .prop_map(|(role, local_cm, remote_cm, ops, tokio_seed)| CaseA { role, local_cm, remote_cm, ops, tokio_seed })
         .boxed()
 }
@@ -126,6 +128,9 @@ pub async fn run_a(c: &CaseA) -> Result<InfoA, String> {
     let mut live: Vec<(u16, SessH, u16)> = Vec::new();
     let mut ever_used: Vec<u16> = Vec::new();
     let mut info = InfoA::default();
+    // begins that went out and were never answered: whether their channel is still reserved is the
+    // implementation's business, so afterwards only the bound and the live set are asserted
+    let mut abandoned: u32 = 0;
     let _ = peer.new_frames().await;
     for (step, op) in c.ops.iter().enumerate() {
         match op {
@@ -149,7 +154,7 @@ pub async fn run_a(c: &CaseA) -> Result<InfoA, String> {
                         };
                         let (r, begins) = tokio::join!(fut, pa);
                         let begins = begins.map_err(|e| format!("HARNESS: {e}"))?;
-                        check_begin(step, &begins, r.as_ref().map(|_| ()).map_err(|e| format!("{e:?}")), free_exists, agreed, &live, c)?;
+                        check_begin(step, &begins, r.as_ref().map(|_| ()).map_err(|e| format!("{e:?}")), free_exists, agreed, &live, c, abandoned)?;
                         if let (Ok(s), Some(b)) = (r, begins.first()) {
                             if ever_used.contains(&b.channel) {
                                 info.reused = true;
@@ -168,7 +173,7 @@ pub async fn run_a(c: &CaseA) -> Result<InfoA, String> {
                         peer.send_frame(pch, &Peer::begin_body(None, 0, 2048, 2048, None), &[]).await.map_err(|e| format!("HARNESS: {e}"))?;
                         let (r, fs) = tokio::join!(sacc.accept(cn), peer.new_frames());
                         let begins: Vec<RFrame> = fs.into_iter().filter(|f| f.name() == "begin").collect();
-                        check_begin(step, &begins, r.as_ref().map(|_| ()).map_err(|e| format!("{e:?}")), free_exists, agreed, &live, c)?;
+                        check_begin(step, &begins, r.as_ref().map(|_| ()).map_err(|e| format!("{e:?}")), free_exists, agreed, &live, c, abandoned)?;
                         if let (Ok(s), Some(b)) = (r, begins.first()) {
                             if ever_used.contains(&b.channel) {
                                 info.reused = true;
@@ -181,6 +186,31 @@ pub async fn run_a(c: &CaseA) -> Result<InfoA, String> {
                 }
                 if !free_exists {
                     info.limit_reached = true;
+                }
+            }
+            OpA::BeginAbandoned => {
+                if let ConnH::C(cn) = &mut conn {
+                    let fut = Session::builder().buffer_size(64).begin(cn);
+                    tokio::pin!(fut);
+                    let fs = tokio::select! {
+                        biased;
+                        r = &mut fut => {
+                            // refused locally (or failed): nothing was allocated
+                            let _ = r;
+                            peer.new_frames().await
+                        }
+                        fs = peer.new_frames() => fs,
+                    };
+                    for b in fs.iter().filter(|f| f.name() == "begin") {
+                        if b.channel as u32 > agreed {
+                            return Err(format!("step {step}: a begin was written on channel {} above the agreed channel-max {agreed} (local channel-max {}, peer channel-max {}, {} live sessions, {} abandoned begins)", b.channel, c.local_cm, c.remote_cm, live.len(), abandoned));
+                        }
+                        if live.iter().any(|l| l.0 == b.channel) {
+                            return Err(format!("step {step}: a begin was written on channel {} which a live session still uses", b.channel));
+                        }
+                        abandoned += 1;
+                    }
+                    // the future is dropped here, unanswered
                 }
             }
             OpA::End(i) => {
@@ -214,7 +244,7 @@ pub async fn run_a(c: &CaseA) -> Result<InfoA, String> {
     Ok(info)
 }
 
-fn check_begin(step: usize, begins: &[RFrame], res: Result<(), String>, free_exists: bool, agreed: u32, live: &[(u16, SessH, u16)], c: &CaseA) -> Result<(), String> {
+fn check_begin(step: usize, begins: &[RFrame], res: Result<(), String>, free_exists: bool, agreed: u32, live: &[(u16, SessH, u16)], c: &CaseA, abandoned: u32) -> Result<(), String> {
     let ctx = format!("(local channel-max {}, peer channel-max {}, {} live sessions on channels {:?})", c.local_cm, c.remote_cm, live.len(), live.iter().map(|l| l.0).collect::<Vec<_>>());
     if begins.len() > 1 {
         return Err(format!("step {step}: one begin operation wrote {} begin frames {ctx}", begins.len()));
@@ -226,6 +256,13 @@ fn check_begin(step: usize, begins: &[RFrame], res: Result<(), String>, free_exi
         if live.iter().any(|l| l.0 == b.channel) {
             return Err(format!("step {step}: a begin was written on channel {} which a live session still uses {ctx}", b.channel));
         }
+    }
+    if abandoned > 0 {
+        // with unanswered begins outstanding only the bound and the uniqueness among live sessions are asserted
+        return match (&res, begins.first()) {
+            (Ok(()), None) => Err(format!("step {step}: begin returned Ok without writing a begin frame {ctx}")),
+            _ => Ok(()),
+        };
     }
     match (&res, begins.first(), free_exists) {
         (Ok(()), Some(_), true) => Ok(()),
